@@ -59,7 +59,7 @@ class Spec(L.Spec):
             extra += ["l:ep:0", "l:ep:1", "rxack", "rx:push:2:4", "rx:hdr:2:request", "rx:hdr:4:response:es", "l:hdr:2:request",
                       "l:data:2"]
         else:
-            extra += ["rx:ep:0", "rx:ep:1", "l:push:2:4"]
+            extra += ["rx:ep:0", "rx:ep:1", "l:push:2:4", "l:pushrace:%d:2" % f, "l:pushrace:%d:4" % f]
         self.menu = keep + sorted(set(extra))
 
     def init_extra(self, st):
@@ -89,6 +89,25 @@ class Spec(L.Spec):
                 o = h.rx([wire.settings([(wire.S_ENABLE_PUSH, v)])])
                 if o.kind == "ok":
                     st.extra["rep"] = v
+            return o, info
+        if len(parts) >= 2 and parts[1] == "pushrace":
+            # a push that succeeds while the client's SETTINGS (ENABLE_PUSH=0) is still on its way; the application has not
+            # collected the PUSH_PROMISE yet when that SETTINGS frame arrives: promise first, acknowledgement after it
+            parent, promised = int(parts[2]), int(parts[3])
+            info = {"dir": "l", "kind": "pushrace", "es": False, "sid": parent, "promised": promised}
+            try:
+                h.conn.push_stream(parent, promised, list(H.REQ))
+            except Exception:  # noqa: BLE001
+                o = H.Obs()
+                o.kind = "raise"
+                o.exc_name = "refused"
+                o.is_proto = o.is_h2 = True
+                o.via_fsm = True        # whatever the reason: this path ends (the plain push actions judge refusals)
+                H.drain(h.conn, o)
+                return o, info
+            o = h.rx([wire.settings([(wire.S_ENABLE_PUSH, 0)])])
+            if o.kind == "ok":
+                st.extra["rep"] = 0
             return o, info
         if len(parts) >= 2 and parts[1] == "push":
             parent, promised = int(parts[2]), int(parts[3])
@@ -121,6 +140,13 @@ class Spec(L.Spec):
         return acts
 
     def judge(self, st, lab, info, o, bad):
+        if info["kind"] == "pushrace":
+            if o.kind == "ok":
+                kinds = [f.type for f in o.frames]
+                if kinds[:1] != [wire.PUSH_PROMISE] or wire.SETTINGS not in kinds[1:]:
+                    bad("promise-overtaken-by-settings-ack", "%s: the promise was queued before ENABLE_PUSH=0 arrived, output order %s" % (
+                        lab, [f.name for f in o.frames]))
+            return "pushrace-" + o.kind
         if info["kind"] != "push":
             # the promised stream "carries only a response": judged through the lifecycle verdicts
             if info.get("sid") in (2, 4) and "verdict" in info and info["dir"] == "rx":
